@@ -383,6 +383,29 @@ def r6_reinit(ctx, F, table):
     be = [d for d in live_calls(b) if d.name == "init" and d.trait == common.FS_TRAIT]
     ok = len(fl) == 1 and all(b.can_reach(x.bb, fl[0].bb) for x in be) and not any(b.can_reach(fl[0].bb, x.bb) for x in be)
     ctx.check("R6-reinit", "publish-after-backends", ok, "Vfs::init sets `initialized` before all backends are initialised", loc=b.loc())
+    # DESTROY ends the session for every backend and makes a new INIT possible (shared with C15: nothing outlives the session)
+    vfs_destroy(ctx, F, "R6-reinit")
+
+
+def vfs_destroy(ctx, F, rule):
+    d = [x for x in F.find(name="destroy", self_adt=VFS) if x.trait == common.FS_TRAIT]
+    if len(d) != 1:
+        raise core.Anchor("Vfs::destroy")
+    d = d[0]
+    ctx.fn_seen(d)
+    dv = vf.VF(d, inline_depth=0, opaque_loops=True)
+    ds = [c for c in live_calls(d) if c.name == "destroy"]
+    st = [c for c in live_calls(d) if c.name == "store" and "atomic" in (c.fn or "").lower()]
+    ok = len(ds) == 1 and len(st) == 1
+    if ok:
+        hs = [h for h in dv.loop_headers() if d.dominates(h, ds[0].bb) and d.can_reach(ds[0].bb, h)]
+        g = [(vf.render(x, d, short=True, vfx=dv), l) for (x, l, u) in dv.guards(ds[0].bb)]
+        extra = [(t, l) for (t, l) in g if not t.startswith("discr(") and not t.startswith("Vfs::initialized(")]
+        a = [vf.render(x, d, short=True, vfx=dv) for x in dv.call_args(st[0])]
+        ok = len(hs) == 1 and not extra and a[0] == "self.initialized" and a[1] == "0" and not d.can_reach(st[0].bb, ds[0].bb)
+        ok = ok and any(c.name == "load" and "superblocks" in vf.render(dv.call_args(c)[0], d, short=True) for c in live_calls(d))
+    ctx.check(rule, "destroy/every-backend-then-reset", ok,
+              "Vfs::destroy must destroy every mounted backend (loop over the superblocks, no further condition) and then clear `initialized`", loc=d.loc())
 
 
 META = {
